@@ -45,6 +45,9 @@ def main(argv=None) -> int:
     ap.add_argument('--repo', default=os.environ.get('SA_REPO', '/repo'))
     ap.add_argument('--replay')
     ap.add_argument('--all', action='store_true')
+    ap.add_argument('--selftest', action='store_true')
+    ap.add_argument('--only', action='append')
+    ap.add_argument('-j', type=int, default=16)
     a = ap.parse_args(argv)
     if a.replay:
         with open(a.replay) as f:
@@ -78,6 +81,9 @@ def main(argv=None) -> int:
             return 1
         print('result: this obligation is no longer violated on %s' % a.repo)
         return 0
+    if a.selftest:
+        from .selftest import main as st
+        return st(a.only, a.j, a.repo)
     if a.all:
         worst = 0
         for p in CLAIMED:
